@@ -1,5 +1,5 @@
 // sitedump: lists the panic-capable sites (index, slice, unchecked type assertion, make with a
-// computed size, map write) of named Go functions together with the conditions that syntactically
+// computed size, division / remainder by a computed divisor) of named Go functions together with the conditions that syntactically
 // guard them.  Identifiers are erased ("_") so that renaming a local or reordering independent
 // statements does not change the output; literals, operators, len/cap and the guard structure stay.
 //
@@ -160,6 +160,13 @@ func main() {
 						}
 						if !checked {
 							s = &site{"assert", x}
+						}
+					}
+				case *ast.BinaryExpr:
+					// integer division / remainder by a computed divisor can panic (divide by zero)
+					if x.Op == token.QUO || x.Op == token.REM {
+						if _, lit := x.Y.(*ast.BasicLit); !lit {
+							s = &site{"div", x}
 						}
 					}
 				case *ast.CallExpr:
